@@ -26,6 +26,9 @@ use crate::p2p::header_ex::{Event, HeaderExError, ReqRespBehaviour};
 use crate::p2p::utils::OneshotSender;
 use crate::peer_tracker::PeerTracker;
 
+#[cfg(eigerco_lumina_verif)]
+pub(super) mod verif_client;
+
 const MAX_PEERS: usize = 10;
 const MAX_TRIES: usize = 3;
 const SCHEDULE_PENDING_INTERVAL: Duration = Duration::from_millis(100);
